@@ -146,7 +146,7 @@ PROPS = {
     "C15": {
         "engine": "keyspacesim",
         "level_text": "keyspace-bound clients (transactional: tikv.NewTestKeyspaceTiKVStore with codec v2; raw: rawkv.Client with API v2) for keyspace A, drawn from 14 ids incl. ones that carry into the next byte, and for its two neighbours A-1 and A+1, over the simulated network and PD against one shared store (repo mock / reference TiKV model) that also holds sentinel records just outside A's bounds and v1-style records; region borders exactly on keyspace prefixes and ends, inside keyspaces, spanning both bounds, or one region for everything (memcomparable region keys); splits, merges, leader moves, region errors incl. an EpochNotMatch that lists every region and KeyNotInRegion; workloads: optimistic / pessimistic / async-commit / 1PC / pipelined transactions with get, batch get, scans in both directions with empty bounds, lock keys, a writer crashed inside Commit whose locks survivors scan, resolve and read through, ScanLocks, ResolveLocksForRange, DeleteRange, SplitRegions, raw put / get / delete / batch ops / scans / delete-range / checksum / CAS; oracles: per-keyspace model over LOGICAL keys (sorted map / committed versions) and final store state, a reflective wire monitor below the codec (every key-bearing field of every request inside [prefix, end], context carries V2 and the keyspace id), above the codec (no response, lock, key-error or region-descriptor key still prefixed) and at API level (error keys, lock descriptions, LocateKey bounds logical), isolation audit (everything outside A byte-identical before and after), request-storm liveness, and for every command that crosses: context attach, region-error synthesis, batch conversion",
-        "level_note": "trusted: the models, the wire monitor's field list, the front that supplies what the mock lacks (see sim/engines/keyspacesim/CHECK.md); NOT decided: the property's quantifier over the whole command catalogue by reflection - that is input enumeration; the evidence lists which command types crossed the wire (about 31 of 54) and which were not reached; response direction of the batch conversion; unbounded reverse scans are judged only in layouts where every keyspace lies within one region (known finding F1 applies to both codecs alike)",
+        "level_note": "trusted: the models, the wire monitor's field list, the front that supplies what the mock lacks (see sim/engines/keyspacesim/CHECK.md); the property's quantifier over the whole command catalogue is input enumeration, not something a simulated execution provides: it is decided by the auxiliary mode catalogue (NOT a simulation: one complete enumeration of the 53 named command types paired with their request messages by reflection - context attach, region-error synthesis and read-back, batched wire form in both directions, and the API v2 codec with every key-bearing field filled, request and response direction; counters catalogue.* say per command what was judged and what is outside a clause), while the simulated modes list which command types crossed the wire (about 31); unbounded reverse scans are judged only in layouts where every keyspace lies within one region (known finding F1 applies to both codecs alike)",
         "level": "exploration",
         "modes": [
             {"mode": "txn", "quick": {"runs": 3008}, "thorough": {"runs": 100000}},
@@ -155,6 +155,7 @@ PROPS = {
             {"mode": "locks-R", "quick": {"runs": 2000}, "thorough": {"runs": 60000}},
             {"mode": "raw", "quick": {"runs": 3008}, "thorough": {"runs": 100000}},
             {"mode": "pipe-R", "quick": {"runs": 2000}, "thorough": {"runs": 50000}},
+            {"mode": "catalogue", "quick": {"runs": 16}, "thorough": {"runs": 16}},
         ],
         "rule": "seeded programs per keyspace with topology events and region errors; non-trivial = not aborted, at least 5 judged calls and at least 2 command types crossed the wire; distinct = canonical RPC traces of the live clients",
         "real_vs_stub": "real code: internal/apicodec (v2), tikv.CodecClient, locate.CodecPDClient with keyspace, tikv.KVStore, rawkv.Client, txnkv/transaction, txnkv/txnsnapshot, txnkv/txnlock, txnkv/rangetask, tikv/gc.go, tikv/split_region.go, internal/locate, config/retry, tikvrpc; server: mocktikv RPC server + MVCCLevelDB (modes without suffix, raw commands executed on the mock's raw engine by the front), reference model sim/refkv (modes -R); stub: network, PD (SimPD with a wrapper serving LoadKeyspace), clock, store liveness",
